@@ -352,7 +352,22 @@ func fieldKey(structType types.Type, idx int) (string, types.Type) {
 		return name + ".?", nil
 	}
 	f := s.Field(idx)
-	return name + "." + f.Name(), f.Type()
+	return name + "." + embeddedCanon(f), f.Type()
+}
+
+// embeddedCanon: the name of a struct field; an embedded field is named after its type, so it follows the type's
+// canonical name when the type was renamed.
+func embeddedCanon(f *types.Var) string {
+	if f.Embedded() {
+		t := f.Type()
+		if p, ok := t.(*types.Pointer); ok {
+			t = p.Elem()
+		}
+		if n, ok := t.(*types.Named); ok {
+			return typeCanonName(n.Obj())
+		}
+	}
+	return f.Name()
 }
 
 // FieldName strips the type qualifier of a faddr/fld Aux.
@@ -505,7 +520,7 @@ func (ev *Evaluator) LoadField(st *State, ptr *T, fields ...string) *T {
 					}
 				}
 				for j := 0; j < s.NumFields(); j++ {
-					if s.Field(j).Name() == want {
+					if s.Field(j).Name() == want || embeddedCanon(s.Field(j)) == want {
 						idx = j
 					}
 				}
